@@ -160,10 +160,15 @@ class SimilarityContainer(MetadataAware, typing.Sized):
         header = []
         records = []
 
+        in_header = True
+
         def store_header(row: str) -> bool:
-            if row[0] == '#':
+            # The comment lines are only at the top of the file, above the column names.
+            nonlocal in_header
+            if in_header and row[0] == '#':
                 header.append(row)
                 return False
+            in_header = False
             return True
 
         with open_text_io_handle_for_reading(fh) as handle:
